@@ -26,7 +26,8 @@ ASSUMPTIONS = [
     'reference offender set from gverif/refverify.py (independent of gemato)',
     'order of handler calls is not constrained; offenders under IGNOREd paths and files beneath a '
     'directory that replaced a listed file are DONT_CARE',
-    'CLI: each offender must appear in exactly one ERROR log line "Manifest mismatch for <path>"',
+    'CLI: each offender must be the .path of exactly one ManifestMismatch object logged at ERROR level '
+    '(the logged exception object is inspected, not the wording of its message); exit status non-zero iff offenders',
 ]
 
 TOP = 'Manifest'
@@ -156,16 +157,18 @@ def check_case(case, scratch, stats=None):
         oc = gem.cli(['verify', '-k', os.path.join(root, path) if path else root])
         if stats is not None:
             stats.transitions += 1
-        errs = [m for lv, m in oc['log'] if lv == 'ERROR']
         rep = collections.Counter()
-        for m in errs:
-            first = m.split('\n')[0]
-            if first.startswith('Manifest mismatch for '):
-                rep[first[len('Manifest mismatch for '):]] += 1
+        for (lv, m), info in zip(oc['log'], oc['log_info']):
+            if lv != 'ERROR':
+                continue
+            if info is not None and info['exc'] == 'ManifestMismatch' and info['path'] is not None:
+                rep[info['path']] += 1          # the logged exception object itself, not its wording
             else:
-                rep['<other>:' + first] += 1
-        want_exit = 0 if n == 0 else 1
-        if oc.get('exit') != want_exit:
+                rep['<other>:' + m.split('\n')[0]] += 1
+        # the statement says "non-zero exit status", not a particular value
+        bad_exit = (oc.get('exit') != 0) if n == 0 else (not isinstance(oc.get('exit'), int) or oc.get('exit') == 0)
+        want_exit = 0 if n == 0 else 'non-zero'
+        if bad_exit:
             out.append({'sig': {'check': 'cli_exit_status', 'iface': 'cli', 'policy': 'false'}, 'case': case,
                         'message': f'cli_exit_status: verify -k exit {oc.get("exit")!r} ({gem.brief(oc)}), '
                         f'expected {want_exit} with offenders {dict(expected)}'})
